@@ -99,6 +99,11 @@ func match(t *rt.Thread, c *rt.GoCont) (rt.Cont, error) {
 	if ptnErr != nil {
 		return nil, ptnErr
 	}
+	if si > len(s) {
+		// Nothing can match from beyond the end of the subject
+		t.Push1(next, rt.NilValue)
+		return next, nil
+	}
 	captures, usedCPU := pat.MatchFromStart(string(s), si, t.UnusedCPU())
 	t.RequireCPU(usedCPU)
 	pushCaptures(t.Runtime, captures, s, next)
@@ -160,6 +165,10 @@ func gmatch(t *rt.Thread, c *rt.GoCont) (rt.Cont, error) {
 	si := luastrings.StringNormPos(s, int(init)) - 1
 	if si < 0 {
 		si = 0
+	}
+	if si > len(s) {
+		// A start position beyond the end of the subject is the end of the subject
+		si = len(s)
 	}
 	allowEmpty := true
 	var iterator = func(t *rt.Thread, c *rt.GoCont) (rt.Cont, error) {
@@ -323,7 +332,7 @@ func gsub(t *rt.Thread, c *rt.GoCont) (rt.Cont, error) {
 	// An anchored pattern can only match at the start of the string.
 	anchored := pat.StartAnchored()
 	substituted := false
-	for matchCount != n {
+	for matchCount != n && si <= len(s) {
 		// MatchFromStart only tries the position si if the pattern is anchored
 		captures, usedCPU := pat.MatchFromStart(string(s), si, t.UnusedCPU())
 		t.RequireCPU(usedCPU)
